@@ -269,7 +269,9 @@ def gen_case(case):
             acs.append((GEN_LOC % (k + 1), bmap[e['b']], int(e['idx']) if scn['form'] == 'int' else e['idx']))
     out = {'exc': None, 'doc': None, 'store': None}
     try:
-        sp = spc.sp_for(endpoints={'assertion_consumer_service': acs})
+        enc = {'none': (), 'one': ('kSpEnc1',), 'two': ('kSpEnc1', 'kSpEnc2')}[scn.get('encKeys', 'one')]
+        top = {'top_additional_cert_files': [env.certfile('kIdp1b')]} if scn.get('extraSign') else {}
+        sp = env.make_sp(env.sp_config(enc_keys=enc, endpoints={'assertion_consumer_service': acs}, **top))
         text = str(entity_descriptor(sp.config))
         root = ET.fromstring(text)
         brev = dict((v, k) for k, v in bmap.items())
@@ -284,6 +286,8 @@ def gen_case(case):
             except Exception as exc:
                 got[b] = '!%s' % type(exc).__name__
         out['store'] = got
+        out['keys'] = {'signing': sorted(set(keyname(c) for c in mds.certs(sp.config.entityid, 'spsso', 'signing'))),
+                       'encryption': sorted(set(keyname(c) for c in mds.certs(sp.config.entityid, 'spsso', 'encryption')))}
     except Exception as exc:
         out['exc'] = '%s: %s' % (type(exc).__name__, str(exc)[:160])
     return out
@@ -350,6 +354,10 @@ def main():
                     via = [d[1:] for d in doc if d[0] == b]
                     if via and out['store'][b] != via:
                         problem = problem or 'store hands back %s for %s, the generated metadata says %s' % (out['store'][b], b, via)
+        if not problem and not out['exc']:
+            for use in ('signing', 'encryption'):
+                if out['keys'][use] != sorted(case[use]):
+                    problem = 'generated metadata publishes %s as %s certificates, the configuration has %s' % (out['keys'][use], use, sorted(case[use]))
         if problem:
             chk.violation({'gen': json.dumps(scn, sort_keys=True)}, 'configuration -> metadata: %s (%s)' % (problem, json.dumps(scn, sort_keys=True)), detail)
         elif [d[2] for d in out['doc']] != [m['idx'] for m in case['model']]:
